@@ -196,6 +196,8 @@ def feature_inputs(name, tier):
         'ws-directive': ['a-b', 'c', ' ', '\t', '(*x*)', '#x\n'], 'long-choice': ['a' * 9, 'b' * 9, 'j' * 9, 'a', ' '],
         'unicode': ['é', 'こんにちは', '世界', 'w', 'x', ' '],
         'named-multi-node-group': ['a ', 'b '],
+        'wide-first': ['日本', 'a', 'b', ' '], 'wide-inner': ['日本', 'a', 'b', 'c', ' '], 'wide-inner-2': ['日本語', 'x', 'a', ' '], 'wide-last': ['日本', 'a', ' '],
+        'wide-names': ['ｗ', 'a', '世', '界', 'c', ' '],
         'long-gather': ['a' * 20, 'b' * 20, ',', ' '], 'long-join': ['a' * 20, 'c' * 20, ';', ' '],
         'long-left-join': ['a' * 20, 'b' * 20, '+'], 'long-right-join': ['a' * 20, 'b' * 20, '+'],
         'long-closures': ['a' * 20 + ' ', 'b' * 20 + ' ', 'd' * 20 + ' ', 'g' * 20 + ' ', 'i' * 20], 'long-named': ['a' * 20 + ' ', 'c' * 20 + ' ', 'd' * 20, 'a'],
